@@ -212,6 +212,9 @@ func recycleScenario(i int) {
 			return nil
 		}
 		filter = append(filter, e.Context().FilterNodes()...)
+		if os.Getenv("VERIF_DEBUG") != "" {
+			fmt.Fprintf(os.Stderr, "  call(%q,fail=%v) t=%d filter=%v half=%v\n", a, fail, clk.Ms()%100000, filter, e.Context().HalfOpenNodes())
+		}
 		if a != "" {
 			sentinel.TraceCallee(e, a)
 			if fail {
@@ -227,15 +230,30 @@ func recycleScenario(i int) {
 	call(healed, true)
 	call("", false)
 	// the healed node completes a request successfully (after its retry timeout)
+	// (real pause: the recycle tasks queued by the requests above are consumed by a background goroutine; in real
+	// deployments at least the retry timeout lies between an ejection report and a successful probe, here virtual
+	// time would compress that gap to microseconds and the "recovered" mark would race with the task consumer)
+	time.Sleep(20 * time.Millisecond)
 	clk.AddMs(100)
 	call(healed, false)
 	call(healed, false)
+	flapping := i%2 == 1
+	if flapping {
+		// the recovered node fails again and is reported as an outlier a second time within the same recycle interval
+		clk.AddMs(100)
+		call(healed, true)
+		call("", false)
+		time.Sleep(20 * time.Millisecond)
+	}
 	// wait (real time) until the control node has been recycled: it no longer shows up as an outlier
 	gone := false
 	for k := 0; k < 100 && !gone; k++ {
 		time.Sleep(50 * time.Millisecond)
 		clk.AddMs(1)
 		f := call("", false)
+		if os.Getenv("VERIF_DEBUG") != "" {
+			fmt.Fprintf(os.Stderr, "  poll %d t=%d filter=%v\n", k, clk.Ms()%100000, f)
+		}
 		gone = true
 		for _, x := range f {
 			if x == control {
@@ -249,9 +267,14 @@ func recycleScenario(i int) {
 	}
 	// the healed node must still be known: make it fail again and it must be reported immediately
 	// (a recycled node would first have to be re-created by a completion)
-	clk.AddMs(100)
-	call(healed, true)
+	if !flapping {
+		clk.AddMs(100)
+		call(healed, true)
+	}
 	f := call("", false)
+	if os.Getenv("VERIF_DEBUG") != "" {
+		fmt.Fprintf(os.Stderr, "scenario %d flapping=%v final filter=%v\n", i, flapping, f)
+	}
 	found := false
 	for _, x := range f {
 		if x == healed {
@@ -259,7 +282,11 @@ func recycleScenario(i int) {
 		}
 	}
 	if !found {
-		run.Violation("C20/recycler:recovered-node-recycled", fmt.Sprintf("scenario %d: node %s completed requests successfully after being an outlier but its breaker was gone after the recycle interval (its new failure was not reported: filter=%v)", i, healed, f), map[string]int{"scenario": i})
+		cls := ""
+		if flapping {
+			cls = ":flapping-node"
+		}
+		run.Violation("C20/recycler:recovered-node-recycled"+cls, fmt.Sprintf("scenario %d (flapping=%v): node %s completed requests successfully after being an outlier but its breaker was gone after the recycle interval (its failure is not reported: filter=%v)", i, flapping, healed, f), map[string]interface{}{"scenario": i, "flapping": flapping})
 	}
 	run.Count("recycler_scenarios", 1)
 	run.Distinct(vk.Hash("recycle", i))
@@ -274,9 +301,9 @@ func main() {
 	if os.Getenv("VERIF_MODE") == "recycle" {
 		run = vk.Start("C20", "recycle")
 		defer run.Finish()
-		run.Rule("scenario = two nodes trip; one completes requests successfully afterwards, the other (control) never does; once the control node has been observed gone (recycle interval 1 s, real timer) the recovered node must still be known. distinct = scenarios.")
+		run.Rule("scenario = two nodes trip; one completes requests successfully afterwards (odd scenarios: and then fails and is reported again within the same interval), the other (control) never does; once the control node has been observed gone (recycle interval 1 s, real timer) the recovered node must still be known. distinct = scenarios.")
 		run.Assume("real time.AfterFunc timers of the recycler; the verdict is only taken after the control node was observed recycled")
-		n := run.N(3, 20)
+		n := run.N(4, 20)
 		for i := 0; i < n; i++ {
 			if run.Skip(i) {
 				continue
